@@ -521,7 +521,10 @@ pub fn run_seq_with_state(seq: &Seq, dir: &Path, driver: &mut Option<Driver>, op
                 }
             }
             // --- the directory at this very moment
-            let snap = if opts.kill_after_sync && opts.child {
+            // killing the writer is only a fair crash point for the maps in scope: an out-of-scope map with
+            // pending updates would legitimately lose them (then the directory is copied instead)
+            let others_pending = pending_sync.iter().any(|id| !scope.iter().any(|m| m.0 == *id));
+            let snap = if opts.kill_after_sync && opts.child && !others_pending {
                 if let Exec::Child(c) = &mut imp { c.kill9(); }
                 dir.to_path_buf()
             } else {
